@@ -119,7 +119,7 @@ def replay_walk(walk):
     def viol(k, sig, detail):
         kf = None
         if cfg["limited"] and (backend == "scipy" or sig.startswith("BackendsAgree")) \
-                and (sig.startswith("LocalMinimum") or sig.startswith("BackendsAgree")):
+                and (sig.startswith("LocalMinimum") or sig.startswith("BackendsAgree") or sig.startswith("FixedPoint")):
             kf = "KF-C06-SCIPY-BOUNDS"
         issues.append(dict(kind="violation", step=k, kf=kf, signature="%s %s" % (sig, tag), detail=dict(cfg=cfg, **detail)))
 
@@ -149,7 +149,10 @@ def replay_walk(walk):
             pv = np.array(fit.parameter_values, dtype=float)
             pe = np.array(fit.parameter_errors, dtype=float)
             sig = np.where(pe > 0, pe, 1e-3 * np.maximum(np.abs(pv), 1e-3))
-            if a["name"] == "Refit" and np.any(np.abs(pv - before) > 0.05 * sig + 1e-9):
+            # the fixed-point clause is what the statement promises for the ITERATIVE treatment; with the nonlinear one a second fit is only
+            # required to stay within the minimiser's reach (0.1 sigma)
+            lim_fp = 0.05 if cfg["dea"] == "iterative" else 0.1
+            if a["name"] == "Refit" and np.any(np.abs(pv - before) > lim_fp * sig + 1e-9):
                 viol(k, "FixedPoint: a second do_fit moved the optimum", dict(first=before.tolist(), second=pv.tolist(), sigma=sig.tolist()))
                 return issues
             state.update(pv=pv, sig=sig)
